@@ -141,6 +141,24 @@ pub fn cells(tier: Tier) -> Vec<CellPlan> {
     c.rounds = if q { 5 } else { 6 };
     v.push(plan(c, 0, 2.0));
 
+    // Mutate-message tracking across a server restart: the old session ran far ahead in ticks.
+    let mut c = base("track-restart", 1);
+    c.cfg.track = true;
+    c.cfg.tick_offset = 100;
+    c.alphabet = vec![
+        EvOp::Nop,
+        EvOp::StopServer,
+        EvOp::StartServer,
+        EvOp::Connect(0),
+        EvOp::Disconnect(0),
+        EvOp::World(Op::Mut(0, TA)),
+    ];
+    c.tick_choice = false;
+    c.env.hold_events = false;
+    c.env.hold_client_events = false;
+    c.rounds = if q { 5 } else { 6 };
+    v.push(plan(c, if q { 0 } else { 1 }, 2.0));
+
     // Update channel two rounds behind by default: events are queued on the client at the moment
     // of the disconnect / stop without spending deviations.
     for (name, stop) in [("lag2-reconnect", false), ("lag2-restart", true)] {
